@@ -16,8 +16,8 @@ exit 0
 """
 
 
-def install_user_hooks(w, repo):
-    hd = os.path.join(repo, ".git", "hooks")
+def install_user_hooks(w, repo, hooks_dir=None):
+    hd = hooks_dir or os.path.join(repo, ".git", "hooks")
     os.makedirs(hd, exist_ok=True)
     for name in USER_HOOKS:
         p = os.path.join(hd, name)
@@ -110,7 +110,15 @@ class TwinExec(Exec):
     def init(self):
         Exec.init(self)
         self.b.init()
-        if self.trace.get("cfg", {}).get("user_hooks", True):
+        if self.b.w.mode == "both":
+            # the user keeps their hooks in a directory named by core.hooksPath (what the managed hooks
+            # forward to); the managed hooks are installed on top of that in the git-ai world only
+            for ex in (self, self.b):
+                hd = os.path.join(ex.w.root, "userhooks")
+                install_user_hooks(ex.w, ex.repos["r0"], hd)
+                ex.w.raw_git(ex.repos["r0"], "config", "core.hooksPath", hd)
+            self.b.w.ensure_hooks(self.b.repos["r0"])
+        elif self.trace.get("cfg", {}).get("user_hooks", True):
             install_user_hooks(self.w, self.repos["r0"])
             install_user_hooks(self.b.w, self.b.repos["r0"])
         for k, v in (self.trace.get("cfg", {}).get("aliases") or {}).items():
